@@ -150,11 +150,14 @@ IndexNext ==
 \* Q4: at most 3 results with a permitted error, used with ShapeIndex targets (one point at
 \* the named position): this is the configuration in which the search keeps a set of already
 \* tested edges, per-call scratch state that must not survive the call.
-Queries == {"Q1", "Q2", "Q3", "Q4"}
+\* Q5: exact search (no permitted error) with ShapeIndex targets: a target object reused after a
+\* threshold call must not keep the error that call permitted.
+Queries == {"Q1", "Q2", "Q3", "Q4", "Q5"}
 UserOpts == [Q1 |-> [max |-> Inf, limit |-> "inf"],
              Q2 |-> [max |-> 3, limit |-> "inf"],
              Q3 |-> [max |-> Inf, limit |-> "near"],
-             Q4 |-> [max |-> 3, limit |-> "inf"]]
+             Q4 |-> [max |-> 3, limit |-> "inf"],
+             Q5 |-> [max |-> Inf, limit |-> "inf"]]
 Targets == {"P0", "P1", "P2"}
 EqPresent == {"S1", "S2"}
 \* number of edges within the limit of the target
